@@ -201,6 +201,23 @@ func c04Run(b *core.B) {
 	} {
 		cell("self-containing", t)
 	}
+	// a partial feeder that is a nil function (of the plain or of the exported type)
+	for i, f := range []interface{}{(func(string) (string, error))(nil), plush.PartialFeeder(nil), 5, nil} {
+		idx++
+		if !b.Mine(idx) || !b.Begin(fmt.Sprintf("nil partial feeder %d", i)) {
+			continue
+		}
+		pan := core.Guard(func() {
+			ctx := plush.NewContext()
+			ctx.Set("partialFeeder", f)
+			_, _ = plush.Render(`<%= partial("p") %>`, ctx)
+		})
+		b.Count("odd-partial-feeder")
+		b.NonTrivialDistinct()
+		if pan != nil {
+			b.Violate("partial-feeder/"+pan.Sig(), "panic: "+pan.Value)
+		}
+	}
 	// pure scripts through RunScript
 	for _, sc := range []string{"let a = 1\n a = a + 1", "let a = [1,2]\n a[5] = 1", "print(nope)", "let f = fn(x) { return x }\n f()", "for (x) in 5 { }", "if (true) { return 1 }", "1 / 0", "let a = {}\n a.b = 1", ")", "", "let x = truncate(5, 5)"} {
 		idx++
